@@ -103,9 +103,9 @@ META.update({
 def instances(tier):
     out = []
     sh = {}
-    sh["one-rail"] = (S(N("S", "Source", rail="VIN"), N("C", "Converter", "S"), N("L1", "PLoad", "C"), N("L2", "ILoad", "S")), {"C": "io", "L2": "vi"})
+    sh["one-rail"] = (S(N("S", "Source", rail="VIN"), N("C", "Converter", "S"), N("L1", "PLoad", "C"), N("L2", "ILoad", "S", loss=True), N("L3", "RLoad", "S")), {"C": "io", "L2": "vi"})
     sh["three-rails"] = (S(N("S", "Source", rail="VIN"), N("C", "Converter", "S", rail="3V3"), N("G", "LinReg", "C", rail="1V8"),
-                           N("L1", "PLoad", "C"), N("L2", "ILoad", "G"), N("L3", "RLoad", "G"), N("L4", "PLoad", "S")),
+                           N("L1", "PLoad", "C", loss=True), N("L2", "ILoad", "G"), N("L3", "RLoad", "G", loss=True), N("L4", "PLoad", "S")),
                          {"L2": "tp", "L3": "tp", "L1": "vi ii"})
     sh["same-warning"] = (S(N("S", "Source", rail="VIN"), N("L1", "PLoad", "S"), N("L2", "ILoad", "S")), {"L1": "vi", "L2": "vi"})
     sh["mixed-rail-and-none"] = (S(N("S", "Source"), N("W", "PSwitch", "S", rail="SW"), N("R", "RLoss", "W"), N("L1", "ILoad", "R"), N("L2", "PLoad", "W")), {})
